@@ -44,6 +44,7 @@ func init() {
 	rule := "task shapes (sources with excludes, generates, status, method checksum|timestamp|none, label, one include namespace, prompt, dir) × " +
 		"histories of file operations (write/touch with explicit mtimes, delete, move between directories, rename, rmdir) and CLI invocations " +
 		"(run, --force, --dry, --status, --list-all --json, --list-all, --summary; --yes or declined prompt; a command failing at position k; " +
+		"a command that is a `task:` call of a helper with a `test -f` precondition, failing — also under --dry — while the file is missing; " +
 		"SIGKILL at a command boundary); non-trivial = history with at least one skip, failure, kill or declined prompt; distinct by case"
 	domains["fingerhist-c04"] = domain{func(c *Ctx) { runFingerHist(c, "c04") }, rule}
 	domains["fingerhist-c05"] = domain{func(c *Ctx) { runFingerHist(c, "c05") }, rule}
@@ -247,6 +248,10 @@ type fhWrite struct {
 
 type fhCmd struct {
 	Writes []fhWrite `json:"writes,omitempty"`
+	// Need != "": the command is a `task:` CALL of a helper task whose precondition is `test -f <Need>`
+	// (path relative to the project root) and whose single command is this one.  The call fails before
+	// anything runs when the file is missing — also under --dry, where preconditions are still evaluated.
+	Need string `json:"need,omitempty"`
 }
 
 type fhTask struct {
@@ -343,6 +348,9 @@ func fhUniverse(d fhCase) (paths []string, dirs []string) {
 			for _, w := range c.Writes {
 				ps[w.Path] = true
 			}
+			if c.Need != "" {
+				ps[c.Need] = true
+			}
 		}
 	}
 	for _, s := range d.Steps {
@@ -438,14 +446,30 @@ func (r *fhRun) writeTaskfiles() {
 			}
 		}
 		b.WriteString("    cmds:\n")
-		for k, c := range t.Cmds {
-			b.WriteString("      - |\n")
-			fmt.Fprintf(b, "        if [ \"$KILL_AT\" = \"%d\" ]; then sh -c 'kill -KILL $PPID'; sleep 30; fi\n", k)
-			fmt.Fprintf(b, "        printf '%%s\\n' %d >> \"$TRACE\"\n", k)
-			fmt.Fprintf(b, "        if [ \"$FAIL_AT\" = \"%d\" ]; then exit 1; fi\n", k)
+		body := func(k int, c fhCmd, indent string) {
+			fmt.Fprintf(b, "%s- |\n", indent)
+			fmt.Fprintf(b, "%s  if [ \"$KILL_AT\" = \"%d\" ]; then sh -c 'kill -KILL $PPID'; sleep 30; fi\n", indent, k)
+			fmt.Fprintf(b, "%s  printf '%%s\\n' %d >> \"$TRACE\"\n", indent, k)
+			fmt.Fprintf(b, "%s  if [ \"$FAIL_AT\" = \"%d\" ]; then exit 1; fi\n", indent, k)
 			for _, w := range c.Writes {
-				fmt.Fprintf(b, "        printf '%%s' '%s' > \"$R/%s\"\n", w.Content, w.Path)
+				fmt.Fprintf(b, "%s  printf '%%s' '%s' > \"$R/%s\"\n", indent, w.Content, w.Path)
 			}
+		}
+		for k, c := range t.Cmds {
+			if c.Need != "" {
+				fmt.Fprintf(b, "      - task: zh%d-%d\n", i, k)
+				continue
+			}
+			body(k, c, "      ")
+		}
+		// the helpers of the `task:` calls: same file (a call inside an included file names a task of
+		// that file), internal, no sources / dir / prompt: precondition, then the command itself
+		for k, c := range t.Cmds {
+			if c.Need == "" {
+				continue
+			}
+			fmt.Fprintf(b, "  zh%d-%d:\n    internal: true\n    preconditions:\n      - test -f \"$R/%s\"\n    cmds:\n", i, k, c.Need)
+			body(k, c, "      ")
 		}
 	}
 	if nRoot == 0 {
@@ -533,6 +557,11 @@ func (r *fhRun) caseLine(src, gen [][][]int) string {
 			fmt.Fprintf(&sb, " %d", len(c.Writes))
 			for _, w := range c.Writes {
 				fmt.Fprintf(&sb, " %d %s", r.pid[w.Path], hx(w.Content))
+			}
+			if c.Need != "" {
+				fmt.Fprintf(&sb, " %d", r.pid[c.Need]+1)
+			} else {
+				sb.WriteString(" 0")
 			}
 		}
 	}
@@ -921,6 +950,29 @@ func (r *fhRun) run(only map[int]bool) {
 				newest = m
 			}
 		}
+		// method timestamp, before the invocation: does the marker exist, and what vouches for an
+		// "up to date" verdict — an existing generates file at least as new as every source (`gen`),
+		// else the marker (`marker`), else nothing (`none`)
+		hasMarker, vouch := "0", "none"
+		{
+			mv, okm := prev.marks[fhNorm(t.Name)]
+			if okm {
+				hasMarker = "1"
+			}
+			gfiles, _ := realGlobs(r.taskDirAbs(t), t.Generates)
+			genVouch := false
+			for _, g := range gfiles {
+				if logicalMtime(g) >= newest {
+					genVouch = true
+				}
+			}
+			switch {
+			case genVouch:
+				vouch = "gen"
+			case okm && mv >= newest:
+				vouch = "marker"
+			}
+		}
 		pre := r.render(prev)
 		o := r.invoke(s)
 		r.learnStreams()
@@ -952,10 +1004,16 @@ func (r *fhRun) run(only map[int]bool) {
 			}
 		}
 		for key, v := range snap.marks {
-			// a run that was skipped re-touches the marker: the cause of a later skip stays
-			// with whoever touched it before
-			if pv, ok := prev.marks[key]; (!ok || pv != v) && !(s.Mode == "run" && o.skipped) {
+			// (a skipped run that MOVES the marker — what every check did before the fix of
+			// C04-timestamp-marker-moved-by-every-check — is not its writer: the cause of a later skip
+			// stays with whoever touched it before.  A skipped run that CREATES it is: `wskip=1`.)
+			if pv, ok := prev.marks[key]; !ok || (pv != v && !(s.Mode == "run" && o.skipped)) {
 				r.writer["M"+key] = k
+			}
+		}
+		for key := range prev.marks {
+			if _, ok := snap.marks[key]; !ok {
+				r.writer["M"+key] = k // removed (TimestampChecker.OnError)
 			}
 		}
 		// ---- monitors on the real observations
@@ -964,13 +1022,16 @@ func (r *fhRun) run(only map[int]bool) {
 			method = "checksum"
 		}
 		facts := func(kind string) string {
-			w, wmode, wexit, wtask := "-", "-", "-", "-"
+			w, wmode, wexit, wtask, wskip := "-", "-", "-", "-", "0"
 			wk := "C" + fhNorm(fhDisplay(t))
 			if method == "timestamp" {
 				wk = "M" + fhNorm(t.Name)
 			}
 			if j, ok := wprev[wk]; ok {
 				w, wmode, wexit, wtask = strconv.Itoa(j), r.d.Steps[j].Mode, r.obsExit[j], strconv.Itoa(r.d.Steps[j].Task%len(r.d.Tasks))
+				if r.skips[j] {
+					wskip = "1" // the store was last written by an invocation that reported "up to date"
+				}
 			}
 			la, laexit := "-", "-"
 			if matched != nil {
@@ -980,7 +1041,8 @@ func (r *fhRun) run(only map[int]bool) {
 			if matched != nil && newest > matched.time {
 				newer = "1" // some source is newer than the last attempt
 			}
-			return fmt.Sprintf("viol kind=%s method=%s gens=%s writer=%s wmode=%s wexit=%s wtask=%s lastatt=%s laexit=%s srcnewer=%s", kind, method, b2s(gens), w, wmode, wexit, wtask, la, laexit, newer)
+			return fmt.Sprintf("viol kind=%s method=%s gens=%s writer=%s wmode=%s wexit=%s wtask=%s lastatt=%s laexit=%s srcnewer=%s marker=%s vouch=%s wskip=%s",
+				kind, method, b2s(gens), w, wmode, wexit, wtask, la, laexit, newer, hasMarker, vouch, wskip)
 		}
 		// C04: skip ⇒ goodRun
 		if s.Mode == "run" && o.skipped && len(t.Sources) > 0 && !good {
@@ -1017,14 +1079,15 @@ func (r *fhRun) run(only map[int]bool) {
 		// C12: read-only invocations change nothing and run nothing
 		if fhReadOnly(s.Mode) {
 			if pre != post {
-				r.viol = append(r.viol, fhViol{"c12", k, ti, "viol kind=tree-changed mode=" + s.Mode})
+				r.viol = append(r.viol, fhViol{"c12", k, ti, "viol kind=tree-changed mode=" + s.Mode + " exit=" + o.exit})
 			}
 			if len(o.ran) > 0 {
 				r.viol = append(r.viol, fhViol{"c12", k, ti, "viol kind=body-ran mode=" + s.Mode})
 			}
 		}
 		// ghost log
-		if (s.Mode == "run" || s.Mode == "force") && (len(o.ran) > 0 || o.exit == "killed") {
+		// (a `task:` call whose precondition fails ends the command loop with `failed` before anything ran)
+		if (s.Mode == "run" || s.Mode == "force") && (len(o.ran) > 0 || o.exit == "killed" || o.exit == "failed") {
 			r.log = append(r.log, fhAttempt{task: ti, fp: hx(string(stream)), ideal: ideal, time: s.Now,
 				ok: o.exit == "ok" && len(o.ran) == len(t.Cmds), step: k, exit: o.exit})
 		}
@@ -1090,8 +1153,21 @@ func newFhRun(d fhCase) *fhRun {
 	return r
 }
 
-// evalHist runs one case and returns the lines to emit for property `prop`.
+// evalHist runs one case and returns the lines to emit for property `prop`.  An invocation that
+// hit the 25 s wall-clock limit (a starved machine: the binary needs milliseconds) is not an
+// observation of the code under test: the whole case is evaluated again, at most twice; a hang
+// of the binary itself reproduces and is still reported as `e=timeout`.
 func evalHist(d fhCase, prop string) (lines []fhLine) {
+	for attempt := 0; ; attempt++ {
+		var timedOut bool
+		lines, timedOut = evalHistOnce(d, prop)
+		if !timedOut || attempt == 2 {
+			return lines
+		}
+	}
+}
+
+func evalHistOnce(d fhCase, prop string) (lines []fhLine, timedOut bool) {
 	defer func() {
 		if rec := recover(); rec != nil {
 			lines = []fhLine{{"finger.hist 0 0 0", fmt.Sprintf("panic %v", rec)}}
@@ -1108,6 +1184,11 @@ func evalHist(d fhCase, prop string) (lines []fhLine) {
 	src, gen := r.staticMatches()
 	cl := r.caseLine(src, gen)
 	r.run(nil)
+	for _, x := range r.obsExit {
+		if x == "timeout" {
+			timedOut = true
+		}
+	}
 	il := strings.Join(r.segs, " | ")
 	if r.err != "" {
 		il = "harness-error " + r.err
@@ -1128,6 +1209,11 @@ func evalHist(d fhCase, prop string) (lines []fhLine) {
 			r2 := newFhRun(d)
 			defer os.RemoveAll(r2.work)
 			r2.run(only)
+			for _, x := range r2.obsExit {
+				if x == "timeout" {
+					timedOut = true
+				}
+			}
 			for k := range d.Steps {
 				if only[k] && r2.segs[k] != r.segs[k] {
 					r.viol = append(r.viol, fhViol{"c12", k, d.Steps[k].Task, "viol kind=continuation-differs step=" + strconv.Itoa(k)})
@@ -1146,7 +1232,7 @@ func evalHist(d fhCase, prop string) (lines []fhLine) {
 	if n == 0 {
 		lines = append(lines, fhLine{fmt.Sprintf("finger.mon %s - -", prop), "ok"})
 	}
-	return lines
+	return lines, timedOut
 }
 
 // ---------------------------------------------------------------------------- fingerhist: generation
@@ -1185,6 +1271,7 @@ func (g *fhGen) gen(maxLen int) fhCase {
 		pool []string
 		outs []string
 		flag string
+		pre  string // the file a `task:` call of this task needs
 	}
 	var infos []tinfo
 	for i := 0; i < nt; i++ {
@@ -1250,6 +1337,11 @@ func (g *fhGen) gen(maxLen int) fhCase {
 			}
 			t.Cmds = append(t.Cmds, c)
 		}
+		// one of the commands is a `task:` call that fails (also under --dry) while its file is missing
+		if g.chance(map[string]int{"c04": 15, "c05": 8, "c12": 35}[g.prop]) {
+			info.pre = fmt.Sprintf("%spre%d.f", root, i)
+			t.Cmds[rng.Intn(nc)].Need = info.pre
+		}
 		if g.chance(55) {
 			for k := 1 + rng.Intn(2); k > 0; k-- {
 				switch {
@@ -1271,6 +1363,47 @@ func (g *fhGen) gen(maxLen int) fhCase {
 		d.Tasks = append(d.Tasks, t)
 		infos = append(infos, info)
 	}
+	// directed stream: a `task:` call that fails under --dry AFTER the task has stored a fingerprint —
+	// run with the needed file present, remove it, edit a source, --dry (the call fails: nothing may
+	// change), then look again with a run / --status / --list --json
+	if g.chance(map[string]int{"c04": 4, "c05": 0, "c12": 15}[g.prop]) {
+		ti := rng.Intn(nt)
+		t, inf := &d.Tasks[ti], &infos[ti]
+		if inf.pre == "" {
+			inf.pre = fmt.Sprintf("%spre%d.f", inf.root, ti)
+			t.Cmds[rng.Intn(len(t.Cmds))].Need = inf.pre
+		}
+		if t.Method == "none" {
+			t.Method = ""
+		}
+		t.Sources = append(t.Sources, fhGlob{Glob: "a.e"})
+		src := inf.root + "a.e"
+		add := func(st fhStep) {
+			st.Fail, st.Kill = -1, -1
+			if st.Kind == "inv" {
+				st.Task, st.Yes, st.Now = ti, true, int64(1000*(len(d.Steps)+1))
+			} else if st.Kind == "write" {
+				st.Mtime = int64(1000*len(d.Steps) + 500)
+			}
+			d.Steps = append(d.Steps, st)
+		}
+		add(fhStep{Kind: "write", Path: src, Content: g.content()})
+		add(fhStep{Kind: "write", Path: inf.pre, Content: "p"})
+		if inf.flag != "" && g.chance(50) {
+			add(fhStep{Kind: "write", Path: inf.flag, Content: "f"})
+		}
+		add(fhStep{Kind: "inv", Mode: g.pick([]string{"run", "run", "force"})})
+		add(fhStep{Kind: "delete", Path: inf.pre})
+		if g.chance(85) {
+			add(fhStep{Kind: "write", Path: src, Content: g.content() + "x"})
+		}
+		add(fhStep{Kind: "inv", Mode: "dry"})
+		if g.chance(40) {
+			add(fhStep{Kind: "write", Path: inf.pre, Content: "p"})
+		}
+		add(fhStep{Kind: "inv", Mode: g.pick([]string{"run", "status", "listjson", "dry"})})
+		return d
+	}
 	// history
 	n := 2 + rng.Intn(maxLen-1)
 	// start with some sources in place
@@ -1282,6 +1415,9 @@ func (g *fhGen) gen(maxLen int) fhCase {
 		}
 		if inf.flag != "" && g.chance(70) && len(d.Steps) < n-1 {
 			d.Steps = append(d.Steps, fhStep{Kind: "write", Path: inf.flag, Content: "f", Mtime: int64(1000*len(d.Steps) + 500), Fail: -1, Kill: -1})
+		}
+		if inf.pre != "" && g.chance(60) && len(d.Steps) < n-1 {
+			d.Steps = append(d.Steps, fhStep{Kind: "write", Path: inf.pre, Content: "p", Mtime: int64(1000*len(d.Steps) + 500), Fail: -1, Kill: -1})
 		}
 	}
 	if len(d.Steps) > maxLen/2 {
@@ -1309,6 +1445,12 @@ func (g *fhGen) gen(maxLen int) fhCase {
 			}
 			s := fhStep{Fail: -1, Kill: -1, Mtime: mt}
 			switch r := rng.Intn(100); {
+			case inf.pre != "" && g.chance(30):
+				if g.chance(55) {
+					s.Kind, s.Path, s.Mtime = "delete", inf.pre, 0
+				} else {
+					s.Kind, s.Path, s.Content = "write", inf.pre, "p"
+				}
 			case r < 35:
 				s.Kind, s.Path, s.Content = "write", g.pick(inf.pool), g.content()
 			case r < 47:
@@ -1460,6 +1602,11 @@ func runFingerHist(c *Ctx, prop string) {
 			}
 			if len(t.Generates) > 0 {
 				c.Hit("shape:generates")
+			}
+			for _, cm := range t.Cmds {
+				if cm.Need != "" {
+					c.Hit("shape:call")
+				}
 			}
 		}
 		if len(lines) > 0 {
